@@ -3,7 +3,7 @@ FileSystemBytecodeCache.dump_bytecode into terms of the deep embeddings in Lib/P
   * load_source_eq_model : interp_load <term> = Model.Bc.load_bytecode with the handler classes the term carries,
     for every magic, every pickle / marshal outcome function, every wanted checksum and every byte string;
   * the handler-table predicates on the classes of the term (vm_compute);
-  * dump_source_is_skeleton + dump_source_crash / dump_source_fault : the write path's control skeleton, interpreted
+  * dump_source_crash / dump_source_fault / dump_source_replace_oserror (symbolic evaluation of the term): interpreted
     under every crash and fault point, leaves the file system Model.Bc.crash_after / fault_after describe.
 Fail-closed: any construct outside the vocabulary raises Untranslatable."""
 import ast
@@ -238,7 +238,7 @@ def is_call_kw(n, mod, fn):
 
 
 COQ = r'''(* regenerated from %(root)s/jinja2/bccache.py by gen/bc_translate.py — do not edit *)
-From Coq Require Import List NArith Bool String.
+From Coq Require Import List NArith Bool String Arith Lia.
 Import ListNotations.
 From JV Require Import Model.Bc Proofs.BcProofs Lib.PyBc.
 Open Scope N_scope. Open Scope string_scope.
@@ -285,19 +285,61 @@ Qed.
 
 (* ---- FileSystemBytecodeCache.dump_bytecode, control skeleton *)
 Definition gen_dump : list dstmt := %(dump)s.
-Theorem dump_source_is_skeleton : gen_dump = dump_skeleton.
-Proof. reflexivity. Qed.
+(* the interpreted term itself (symbolic evaluation of the interpreter on gen_dump; the budgeted primitive runs are
+   decomposed with PyBc.prims_cases), for every crash point ... *)
 Theorem dump_source_crash : forall real tmp chunks s0 k, tmp <> real ->
   d_fs (fst (interp_dump real tmp chunks EvCrash gen_dump s0 k)) = crash_after real tmp s0 chunks k.
-Proof. intros. rewrite dump_source_is_skeleton. now apply dump_skeleton_crash. Qed.
+Proof.
+  intros real tmp chunks s0 k D. unfold interp_dump, crash_after, gen_dump. rewrite dump_steps_eq.
+  cbn [dexecs dexec]. set (ws := (List.map WWrite chunks ++ [WClose])%%list).
+  destruct k as [|k]; [reflexivity|]. cbn [prims d_budget d_fs firstn fold_left].
+  set (s1 := exec_step real tmp s0 WCreate).
+  destruct (prims_cases real tmp D EvCrash ws s1 k) as [[H (st' & E & F)]|[H E]]; rewrite E.
+  - cbn [dcatches fst]. rewrite F. rewrite firstn_app. replace (k - List.length ws)%%nat with 0%%nat by lia.
+    cbn [firstn]. now rewrite app_nil_r.
+  - cbn [prims d_budget d_fs].
+    destruct (k - List.length ws)%%nat as [|j] eqn:Ej.
+    + cbn [fst d_fs]. rewrite firstn_app, Ej. cbn [firstn]. rewrite app_nil_r. now rewrite firstn_all2 by lia.
+    + cbn [fst d_fs]. rewrite firstn_all2 by (rewrite app_length; cbn; lia). now rewrite fold_left_app.
+Qed.
+
+(* ... and for every fault point, an OSError or any other exception; the temp name is fresh *)
 Theorem dump_source_fault : forall real tmp chunks s0 k x, tmp <> real -> s0 tmp = None -> forall g,
   d_fs (fst (interp_dump real tmp chunks (EvFault x) gen_dump s0 k)) g = fault_after real tmp s0 chunks k g.
-Proof. intros. rewrite dump_source_is_skeleton. now apply dump_skeleton_fault. Qed.
+Proof.
+  intros real tmp chunks s0 k x D Hfresh g. unfold interp_dump, fault_after, crash_after, gen_dump. rewrite dump_steps_eq.
+  cbn [dexecs dexec]. set (ws := (List.map WWrite chunks ++ [WClose])%%list).
+  destruct k as [|k].
+  - cbn [prims d_budget fst d_fs firstn fold_left]. unfold fupd. destruct (g =? tmp)%%N eqn:Eg; [|reflexivity].
+    apply N.eqb_eq in Eg. now subst g.
+  - cbn [prims d_budget d_fs firstn fold_left]. set (s1 := exec_step real tmp s0 WCreate).
+    destruct (prims_cases real tmp D (EvFault x) ws s1 k) as [[H (st' & E & F)]|[H E]]; rewrite E.
+    + cbn [dcatches dexec fst d_fs]. rewrite F. rewrite firstn_app. replace (k - List.length ws)%%nat with 0%%nat by lia.
+      cbn [firstn]. now rewrite app_nil_r.
+    + cbn [prims d_budget d_fs].
+      destruct (k - List.length ws)%%nat as [|j] eqn:Ej.
+      * rewrite firstn_app, Ej. cbn [firstn]. rewrite app_nil_r. rewrite firstn_all2 by lia.
+        destruct x; cbn [dcatches dexec fst d_fs]; reflexivity.
+      * cbn [fst d_fs]. rewrite firstn_all2 by (rewrite app_length; cbn; lia).
+        change (exec_step real tmp (fold_left (exec_step real tmp) ws s1) WReplace)
+          with (fold_left (exec_step real tmp) [WReplace] (fold_left (exec_step real tmp) ws s1)).
+        rewrite <- fold_left_app. unfold fupd. destruct (g =? tmp)%%N eqn:Eg; [|reflexivity].
+        apply N.eqb_eq in Eg. subst g. apply full_tmp_none.
+Qed.
+
 (* an OSError raised by os.replace is swallowed, any other exception propagates *)
 Theorem dump_source_replace_oserror : forall real tmp chunks s0, tmp <> real ->
-  snd (interp_dump real tmp chunks (EvFault XOSError) gen_dump s0 (S (List.length (List.map WWrite chunks ++ [WClose])))) = DNormal /\
-  snd (interp_dump real tmp chunks (EvFault XOther) gen_dump s0 (S (List.length (List.map WWrite chunks ++ [WClose])))) = DRaise XOther.
-Proof. intros. rewrite dump_source_is_skeleton. now apply dump_skeleton_replace_oserror. Qed.
+  snd (interp_dump real tmp chunks (EvFault XOSError) gen_dump s0 (S (List.length (List.map WWrite chunks ++ [WClose])%%list))) = DNormal /\
+  snd (interp_dump real tmp chunks (EvFault XOther) gen_dump s0 (S (List.length (List.map WWrite chunks ++ [WClose])%%list))) = DRaise XOther.
+Proof.
+  intros real tmp chunks s0 D. unfold interp_dump, gen_dump. cbn [dexecs dexec]. set (ws := (List.map WWrite chunks ++ [WClose])%%list).
+  cbn [prims d_budget d_fs]. set (s1 := exec_step real tmp s0 WCreate).
+  split.
+  - destruct (prims_cases real tmp D (EvFault XOSError) ws s1 (List.length ws)) as [[H _]|[H E]]; [lia|]. rewrite E.
+    rewrite Nat.sub_diag. reflexivity.
+  - destruct (prims_cases real tmp D (EvFault XOther) ws s1 (List.length ws)) as [[H _]|[H E]]; [lia|]. rewrite E.
+    rewrite Nat.sub_diag. reflexivity.
+Qed.
 
 Print Assumptions load_source_eq_model.
 Print Assumptions load_source_never_raises.
